@@ -10,6 +10,8 @@ answer: `ok <i>@<ts>[rx,rx,…];… p=<n>` — the records sent, in order (frame
 frame table), `-` when there is none, and the number of receptions of decodable frames still in
 the cache; `panic` when the loop would panic.  The abstract specification (Spec/Dedup.lean) is run
 on the same history and must give the same records (`spec-differs` otherwise).
+`dedupf <w> <frames> <arrival>…`: the same for decode1090's copy, which flushes the cache at end of
+file; answer `ok <records>`.
 -/
 namespace Rs1090.Driver.C10
 open Rs1090 Rs1090.Dedup Rs1090.Driver
@@ -59,6 +61,17 @@ def handle : List String → Option String
       else
         some s!"spec-differs {showRecords frames out} / {showRecords frames spec}"
     | _ => some "panic"
+  | "dedupf" :: w :: fs :: arrivals => do
+    -- decode1090: the same history with the flush at end of file
+    let w ← w.toNat?
+    let frames ← (fs.splitOn ",").mapM parseFrame
+    let hist ← arrivals.mapM (parseArrival frames)
+    let dec : Frame → Bool := fun f => (frames.lookup f).getD false
+    let out := runFlush w dec hist
+    if Spec.Dedup.runFlush w dec hist = out then
+      some s!"ok {showRecords frames out}"
+    else
+      some s!"spec-differs {showRecords frames out}"
   | _ => none
 
 end Rs1090.Driver.C10
